@@ -213,11 +213,8 @@ Fixpoint find_w (sid : Z) (l : list wstream) : option wstream :=
   | w :: r => if w_sid w =? sid then Some w else find_w sid r
   end.
 
-Fixpoint remove_w (sid : Z) (l : list wstream) : list wstream :=
-  match l with
-  | [] => []
-  | w :: r => if w_sid w =? sid then remove_w sid r else w :: remove_w sid r
-  end.
+Definition remove_w (sid : Z) (l : list wstream) : list wstream :=
+  filter (fun w => negb (w_sid w =? sid)) l.
 
 (* dialBack followed by the OK response and the deferred CompleteRequest *)
 Definition finish_dial (l : rl) (sid p : Z) (a : addr) (idx : Z) : rl * list sev :=
